@@ -5,9 +5,14 @@
    [to_field_set], [remove], [extract] (Model/FieldSet.v, Model/Remove.v) are the
    transliterations of ToFieldSet, RemoveItems, ExtractItems; [present] is the
    independent path resolver (Spec/Resolve.v).  Hypotheses as in C11 ([schema_ok],
-   [family_refs]).  [keys_closed items] says that the removal set never names a key
-   field of a list member without naming the member -- the property's "key fields of
-   surviving items excluded"; without it the law is false (last theorem).  Not yet
+   [family_refs]).  The walkers ignore the error of listItemToPathElement and go on with
+   the zero path element ([pe_zero], Model/Walk.v); on a granular list that is not
+   associative every member gets that element, so without [family_refs] the field set
+   holds paths that designate nothing and extracting its leaves loses the members (the
+   two ..._needs_family theorems).  [keys_closed items] says that the removal set never
+   names a key field of a list member without naming the member -- the property's "key
+   fields of surviving items excluded"; without it the law is false
+   (C14_removal_needs_keys_closed).  Not yet
    proved about the model: "otherwise equals the original", validity and content of the
    extraction with keys, and merge of the two parts -- decided on the implementation's
    outcomes by the extracted checkers. *)
@@ -34,6 +39,7 @@ Theorem C14_paths_designate_nodes :
            (fs : pset) (p : path),
          schema_ok s R ->
          R tr ->
+         family_refs s R ->
          wf_value v = true ->
          conforms s tr true v = true ->
          to_field_set s tr v = Some fs ->
@@ -59,6 +65,7 @@ Theorem C14_extract_all_leaves :
   forall (s : schema) (R : typeref -> Prop) (tr : typeref) (v : value) (fs : pset),
          schema_ok s R ->
          R tr ->
+         family_refs s R ->
          wf_value v = true ->
          conforms s tr false v = true ->
          plain v = true ->
@@ -93,6 +100,31 @@ Theorem C14_removal_needs_keys_closed :
           ps_has p items = true -> present s tr (remove s tr v items) p = false).
 Proof. exact remove_absent_false. Qed.
 Print Assumptions C14_removal_needs_keys_closed.
+
+Theorem C14_paths_designate_nodes_needs_family :
+  ~
+         (forall (s : schema) (R : typeref -> Prop) (tr : typeref) (v : value) 
+            (fs : pset) (p : path),
+          schema_ok s R ->
+          R tr ->
+          wf_value v = true ->
+          conforms s tr true v = true ->
+          to_field_set s tr v = Some fs ->
+          wf_path p = true -> ps_has p fs = true -> present s tr v p = true).
+Proof. exact field_set_paths_resolve_needs_family. Qed.
+Print Assumptions C14_paths_designate_nodes_needs_family.
+
+Theorem C14_extract_all_leaves_needs_family :
+  ~
+         (forall (s : schema) (R : typeref -> Prop) (tr : typeref) (v : value) (fs : pset),
+          schema_ok s R ->
+          R tr ->
+          wf_value v = true ->
+          conforms s tr false v = true ->
+          plain v = true ->
+          to_field_set s tr v = Some fs -> extract s tr false v (ps_leaves fs) = v).
+Proof. exact extract_all_leaves_needs_family. Qed.
+Print Assumptions C14_extract_all_leaves_needs_family.
 
 (* non-vacuity *)
 Theorem C14_hypotheses_satisfiable :
